@@ -2,6 +2,9 @@
 # fuzz/run.sh <target> <runs-per-worker> <seed> [workers]
 # Coverage-guided campaign with the oracle inside the target. Fresh corpus seeded from /verif/corpus.
 # exit 0 = no crash, 1 = crash (artifact path printed as "ARTIFACT <path>"), 2 = infrastructure
+# Only crash-* artifacts (a panic, i.e. the oracle inside the target or a sanitizer firing) count. slow-unit-* files are
+# libFuzzer's report of units slower than -report_slow_units and say nothing about the property; timeout-* / oom-* end
+# one worker's job early and make that part of the campaign inconclusive (counted, never a violation).
 ROOT=$(cd "$(dirname "$0")/.." && pwd)
 T="$1"; RUNS="${2:-20000}"; SEED="${3:-1}"; W="${4:-16}"
 [ "$SEED" = "0" ] && SEED=1
@@ -36,14 +39,18 @@ BIN="$ROOT/fuzz/target/x86_64-unknown-linux-gnu/release/$T"
 [ -x "$BIN" ] || { echo "fuzz binary missing: $BIN"; exit 2; }
 cd "$WORK" || exit 2
 "$BIN" "$WORK/corpus" -artifact_prefix="$WORK/artifacts/" -runs="$RUNS" -seed="$SEED" -max_len=$MAXLEN -len_control=0 $DICT \
-   -jobs="$W" -workers="$W" -rss_limit_mb=4096 -timeout=60 -print_final_stats=1 >"$WORK/driver.log" 2>&1
+   -jobs="$W" -workers="$W" -rss_limit_mb=6144 -timeout=300 -report_slow_units=120 -print_final_stats=1 >"$WORK/driver.log" 2>&1
 RC=$?
 EXECS=$(grep -h "stat::number_of_executed_units" "$WORK"/fuzz-*.log 2>/dev/null | awk '{s+=$2} END {print s+0}')
 COV=$(grep -h "cov:" "$WORK"/fuzz-*.log 2>/dev/null | sed 's/.*cov: \([0-9]*\).*/\1/' | sort -n | tail -1)
 CORP=$(ls "$WORK/corpus" | wc -l)
-echo "FUZZ target=$T executions=$EXECS max_cov=${COV:-0} corpus_files=$CORP seeds=$n"
+SLOW=$(ls "$WORK/artifacts" 2>/dev/null | grep -c "^slow-unit-")
+INCON=$(ls "$WORK/artifacts" 2>/dev/null | grep -c "^timeout-\|^oom-")
+echo "FUZZ target=$T executions=$EXECS max_cov=${COV:-0} corpus_files=$CORP seeds=$n slow_units=$SLOW inconclusive_jobs=$INCON"
 rm -rf "$ROOT"/out/scratch-fuzz-* 2>/dev/null
-ART=$(ls "$WORK/artifacts" 2>/dev/null | head -1)
+[ "$SLOW" = "0" ] || echo "NOTE $SLOW slow unit(s) reported by libFuzzer (not a property violation)"
+[ "$INCON" = "0" ] || echo "INCONCLUSIVE $INCON worker job(s) ended early on a timeout / memory limit (not a property violation)"
+ART=$(ls "$WORK/artifacts" 2>/dev/null | grep "^crash-" | head -1)
 if [ -n "$ART" ]; then
   mkdir -p "$ROOT/out/replays"; cp "$WORK/artifacts/$ART" "$ROOT/out/replays/$T-$ART"
   echo "ARTIFACT $ROOT/out/replays/$T-$ART"
@@ -51,5 +58,6 @@ if [ -n "$ART" ]; then
   rm -rf "$WORK"; exit 1
 fi
 rm -rf "$WORK"
-[ "$RC" = "0" ] || { echo "libFuzzer driver exit $RC without artifact"; exit 2; }
+[ "$EXECS" -gt 0 ] 2>/dev/null || { echo "libFuzzer executed nothing (driver exit $RC)"; exit 2; }
+if [ "$RC" != "0" ] && [ "$INCON" = "0" ]; then echo "libFuzzer driver exit $RC without artifact"; exit 2; fi
 exit 0
